@@ -309,7 +309,9 @@ func (k *Checker) checkCampaignStart(n *Node, pre, post *raft.VerifState, ctx *c
 	}
 	k.count("mc.no_campaign_unapplied")
 	x := k.nc[n.id]
-	for i := pre.Applied + 1; i <= pre.Committed; i++ {
+	// "unapplied" is judged by what the application has really applied, which is
+	// never behind what raft has been told
+	for i := min(pre.Applied, n.app.cur.Index) + 1; i <= pre.Committed; i++ {
 		e := x.entryAt(i)
 		if e != nil && (e.GetType() == pb.EntryConfChange || e.GetType() == pb.EntryConfChangeV2) {
 			k.report("C10", "mc.no_campaign_unapplied", n, fmt.Sprintf("started campaigning at term %d with committed but unapplied conf change at index %d (applied %d, commit %d)", post.Term, i, pre.Applied, pre.Committed), "")
